@@ -19,15 +19,15 @@ EXTENDS FilterChain, VTrace
 VARIABLE lost    \* the run diverged from the specification (already reported)
 tvars == <<vars, l, lost>>
 
-Fresh(ch, e, r) ==
-    /\ chain' = ch /\ env' = e /\ real' = r
+Fresh(ch, e, r, ow) ==
+    /\ chain' = ch /\ env' = e /\ real' = r /\ oneway' = ow /\ declined' = FALSE
     /\ LET s == Settle(ch, "B", 1) IN ph' = s.ph /\ cur' = s.cur
     /\ scur' = 1 /\ again' = "none" /\ direct' = 0 /\ pend' = [code |-> 0, local |-> FALSE] /\ hostChosen' = FALSE
     /\ log' = <<>> /\ pass' = 1 /\ marks' = {} /\ fwd' = 0 /\ replies' = 0 /\ reply' = 0 /\ reentries' = 0 /\ alt' = FALSE
     /\ denied' = FALSE /\ answer' = 0 /\ term' = FALSE /\ resumeAt' = 0 /\ bad' = {}
 
 TraceInit == /\ l = 1 /\ lost = FALSE
-             /\ chain = <<>> /\ env = "ok" /\ real = [slot |-> 0, code |-> 0]
+             /\ chain = <<>> /\ env = "ok" /\ real = [slot |-> 0, code |-> 0] /\ oneway = FALSE /\ declined = FALSE
              /\ ph = "F" /\ cur = 1
              /\ scur = 1 /\ again = "none" /\ direct = 0 /\ pend = [code |-> 0, local |-> FALSE] /\ hostChosen = FALSE
              /\ log = <<>> /\ pass = 1 /\ marks = {} /\ fwd = 0 /\ replies = 0 /\ reply = 0 /\ reentries = 0 /\ alt = FALSE
@@ -35,7 +35,8 @@ TraceInit == /\ l = 1 /\ lost = FALSE
 
 TRun == /\ IsEvent("run")
         /\ Fresh(Ev.case.chain, Ev.case.env,
-                 IF Has(Ev.case, "realslot") THEN [slot |-> Ev.case.realslot, code |-> Ev.case.realcode] ELSE [slot |-> 0, code |-> 0])
+                 IF Has(Ev.case, "realslot") THEN [slot |-> Ev.case.realslot, code |-> Ev.case.realcode] ELSE [slot |-> 0, code |-> 0],
+                 Has(Ev.case, "oneway") /\ Ev.case.oneway)
         /\ lost' = FALSE
 
 (* the run left the specification: report once, skip the rest of the run *)
@@ -89,7 +90,9 @@ TATerm == /\ IsEvent("aterm")
           /\ IF lost THEN UNCHANGED <<vars, lost>>
              ELSE IF Ev.ok
                THEN IF CanATerm THEN ATerm /\ lost' = FALSE ELSE Diverge("terminate-stream-succeeded-after-the-response-or-the-end")
-               ELSE IF CanATerm THEN Diverge("terminate-stream-refused-while-waiting") ELSE UNCHANGED <<vars, lost>>
+               ELSE IF CanATermDecline THEN DoATermDecline /\ lost' = FALSE     \* declined during a later attempt: no effect
+               ELSE IF CanATerm THEN Diverge("terminate-stream-refused-while-waiting")
+               ELSE UNCHANGED <<vars, lost>>
 
 TReply == /\ IsEvent("reply")
           /\ IF ~lost /\ CanReply THEN DoReply /\ lost' = FALSE
@@ -101,6 +104,7 @@ TReply == /\ IsEvent("reply")
 TClean == /\ IsEvent("clean")
           /\ IF ~lost /\ CanClean THEN DoClean /\ lost' = FALSE
              ELSE Diverge(IF ph = "E" THEN "ended-twice"
+                          ELSE IF ph = "W" /\ declined THEN "declined-terminate-stream-left-the-request-unanswered"
                           ELSE IF ph = "W" THEN "ended-while-waiting-for-the-upstream"   \* a life-cycle matter (C03), no filter involved
                           ELSE "request-ended-without-reply-or-termination")
 
@@ -108,7 +112,8 @@ SetOf(s) == { s[j] : j \in DOMAIN s }
 
 TCDone == /\ IsEvent("cdone")
           /\ IF lost THEN TRUE ELSE
-                     ( /\ Expect(Ev.ended /\ ph = "E", IF ph = "W" THEN "never-ended-while-waiting-for-the-upstream" ELSE "request-never-ended")
+                     ( /\ Expect(Ev.ended /\ ph = "E", IF ph = "W" /\ declined THEN "declined-terminate-stream-left-the-request-unanswered"
+                                 ELSE IF ph = "W" THEN "never-ended-while-waiting-for-the-upstream" ELSE "request-never-ended")
                        /\ Expect(Ev.extra = 0, "client-got-bytes-after-response")
                        /\ Expect((Ev.kind = "response") <=> (replies = 1), "client-view-differs")
                        /\ Expect(Ev.kind # "response" \/ replies # 1 \/ Ev.status = reply,
@@ -124,7 +129,11 @@ TQuiesce == /\ IsEvent("quiesce")
                          /\ Expect(Ev.active = 0, "request-active-gauge-differs") )
             /\ UNCHANGED <<vars, lost>>
 
-TNote == (IsEvent("note") \/ IsEvent("new")) /\ UNCHANGED <<vars, lost>>
+(* the answer of the attempt in flight must still be taken after TerminateStream declined *)
+TNote == /\ (IsEvent("note") \/ IsEvent("new"))
+         /\ IF ~lost /\ declined /\ ph = "W" /\ Has(Ev, "what") /\ Ev.what = "us.recv" /\ Has(Ev, "a") /\ Ev.a \in {"dropped-cas", "dropped-guard"}
+              THEN Diverge("upstream-answer-dropped-after-declined-terminate-stream")
+              ELSE UNCHANGED <<vars, lost>>
 
 TraceNext == TRun \/ TCall \/ TAttempt \/ TUpResp \/ TUpReset \/ TATerm \/ TReply \/ TClean \/ TCDone \/ TQuiesce \/ TNote
 TraceSpec == TraceInit /\ [][TraceNext]_tvars
